@@ -82,8 +82,16 @@ def run_variant(args) -> dict:
         shutil.rmtree(tmp, ignore_errors=True)
 
 
-def run_battery(prop: Optional[str], repo_root: str, seed: int = 0, jobs: int = 16) -> dict:
+def run_battery(prop: Optional[str], repo_root: str, seed: int = 0, jobs: int = 16, cross_twins: bool = False) -> dict:
     variants = load_variants(prop)
+    if cross_twins and prop is not None:
+        # the property's check must also stay silent on the behaviour-preserving twins written for OTHER properties
+        for v in load_variants(None):
+            if v["kind"] == "twin" and v["prop"] != prop:
+                w = dict(v)
+                w["id"] = f"{v['id']}@{prop}"
+                w["prop"] = prop
+                variants.append(w)
     results = []
     if variants:
         with ProcessPoolExecutor(max_workers=min(jobs, len(variants))) as ex:
@@ -95,6 +103,7 @@ def run_battery(prop: Optional[str], repo_root: str, seed: int = 0, jobs: int = 
         "mutants_detected": sum(1 for r in results if r["outcome"] == "detected"),
         "twins_total": sum(1 for r in results if r["kind"] == "twin" and r["outcome"] != "not-applicable"),
         "twins_silent": sum(1 for r in results if r["outcome"] == "silent"),
+        "cross_property_twins": sum(1 for r in results if "@" in r["id"] and r["outcome"] != "not-applicable"),
         "not_applicable": [r["id"] for r in results if r["outcome"] == "not-applicable"],
         "details": results,
     }
@@ -107,8 +116,9 @@ def main():
     ap.add_argument("property", nargs="?")
     ap.add_argument("--repo", default="/repo")
     ap.add_argument("-v", action="store_true")
+    ap.add_argument("--cross", action="store_true", help="also run the property's check on the twins of all other properties")
     a = ap.parse_args()
-    res = run_battery(a.property.upper() if a.property else None, a.repo)
+    res = run_battery(a.property.upper() if a.property else None, a.repo, cross_twins=a.cross)
     s = res["summary"]
     for r in s["details"]:
         if a.v or r["outcome"] in ("missed", "false-alarm", "not-applicable"):
